@@ -153,6 +153,14 @@ components:
             theme: {type: string}
             size: {type: integer, default: 3}
         labels: {type: array, uniqueItems: true, default: [a, b], items: {type: string}}
+        stops:
+          type: array
+          default: [{name: first}, {name: second, wait: 1}]
+          items:
+            type: object
+            properties:
+              name: {type: string}
+              wait: {type: integer, default: 5}
         kind:
           oneOf:
             - $ref: '#/components/schemas/Cat'
@@ -193,20 +201,29 @@ type World struct {
 	Legacy  routers.Router
 }
 
-func LoadWorld(marker string) (*World, error) {
+// LoadWorld loads and validates the document and builds both routers. With
+// coldPatterns the document is validated with pattern validation disabled (a
+// legal way to validate), so that no pattern of the document has been compiled
+// before the callers start: first use of every pattern then happens among the
+// concurrent calls.
+func LoadWorld(marker string, coldPatterns bool) (*World, error) {
 	loader := openapi3.NewLoader()
 	doc, err := loader.LoadFromData([]byte(docYAML(marker)))
 	if err != nil {
 		return nil, fmt.Errorf("load: %w", err)
 	}
-	if err := doc.Validate(context.Background()); err != nil {
+	var vopts []openapi3.ValidationOption
+	if coldPatterns {
+		vopts = append(vopts, openapi3.DisableSchemaPatternValidation())
+	}
+	if err := doc.Validate(context.Background(), vopts...); err != nil {
 		return nil, fmt.Errorf("validate: %w", err)
 	}
 	g, err := gorillamux.NewRouter(doc)
 	if err != nil {
 		return nil, fmt.Errorf("gorilla: %w", err)
 	}
-	l, err := legacy.NewRouter(doc)
+	l, err := legacy.NewRouter(doc, vopts...)
 	if err != nil {
 		return nil, fmt.Errorf("legacy: %w", err)
 	}
